@@ -343,7 +343,14 @@ def rule_decomp(ctx: Ctx) -> RuleReport:
                 if one_shot_module:
                     rep.fail(Finding("C12-DECOMP", fi.module.rel, fi.qual, short(c), f"`{d}.decompress(data)` inflates the whole stream at once with no output limit", line=c.lineno))
                 elif len(c.args) >= 2 or any(k.arg == "max_length" for k in c.keywords):
-                    rep.ok({"site": f"{fi.qual}: {short(c, 70)}", "max_length": norm(c.args[1]) if len(c.args) >= 2 else "keyword"})
+                    ml = c.args[1] if len(c.args) >= 2 else next(k.value for k in c.keywords if k.arg == "max_length")
+                    loops = [l for l in walk_own(fi.node) if isinstance(l, (ast.For, ast.While)) and any(x is c for x in ast.walk(l))]
+                    shrinking = any(isinstance(x, ast.BinOp) and isinstance(x.op, ast.Sub) for x in ast.walk(ml)) or any(
+                        isinstance(a, ast.AugAssign) and isinstance(a.op, ast.Sub) and isinstance(a.target, ast.Name) and a.target.id in {n.id for n in ast.walk(ml) if isinstance(n, ast.Name)} for l in loops for a in ast.walk(l))
+                    if loops and not shrinking:
+                        rep.fail(Finding("C12-DECOMP", fi.module.rel, fi.qual, "bounded call in an unbounded loop: " + anorm(c, fi.node), f"`{short(c, 60)}` is limited per call but sits in a loop whose limit `{norm(ml)}` never shrinks: the loop drains the decoder and the total output is again controlled by the stream, not by the declared size", line=c.lineno))
+                    else:
+                        rep.ok({"site": f"{fi.qual}: {short(c, 70)}", "max_length": norm(ml)})
                 else:
                     rep.fail(Finding("C12-DECOMP", fi.module.rel, fi.qual, short(c), "decompress() is called without max_length: the output size is controlled by the stream, not by the declared size", line=c.lineno))
     # the one-shot functions used as values (a dispatch table, a default argument) are the same unbounded inflation
